@@ -106,7 +106,7 @@ func labelsFromBytes(buf []byte) ([]string, error) {
 	var (
 		labels          = make([]string, 0)
 		pos, oldPos     int
-		label           string
+		label           strings.Builder // grows in place: "label += chunk" re-copied the whole name per label
 		handlingPointer bool
 	)
 
@@ -120,18 +120,17 @@ func labelsFromBytes(buf []byte) ([]string, error) {
 			}
 			// interpret label without trailing zero-length byte as a partial
 			// domain name field as per RFC 4704 Section 4.2
-			if label != "" {
-				labels = append(labels, label)
+			if label.Len() != 0 {
+				labels = append(labels, label.String())
 			}
 
 			break
 		}
 		length := int(buf[pos])
 		pos++
-		var chunk string
 		if length == 0 {
-			labels = append(labels, label)
-			label = ""
+			labels = append(labels, label.String())
+			label = strings.Builder{}
 			if handlingPointer {
 				pos = oldPos
 				handlingPointer = false
@@ -156,12 +155,11 @@ func labelsFromBytes(buf []byte) ([]string, error) {
 			if pos+length > len(buf) {
 				return nil, ErrBufferTooShort
 			}
-			chunk = string(buf[pos : pos+length])
-			if label != "" {
-				label += "."
+			if label.Len() != 0 {
+				label.WriteByte('.')
 			}
-			label += chunk
-			if len(label) > maxNameLength {
+			label.Write(buf[pos : pos+length])
+			if label.Len() > maxNameLength {
 				return nil, errors.New("rfc1035label: name longer than 255 octets")
 			}
 			pos += length
